@@ -9,10 +9,10 @@ CONSTANTS
   NbVals = {1}
   Starts = {"fork", "spawn"}
   Hows = {"default", "fork", "spawn"}
-  POps = {"putenv", "setstart", "import", "set", "kernel", "checkmp", "launch", "nbget", "nbset", "nbkernel", "user", "thread", "stopset"}
-  COps = {"import", "set", "kernel", "checkmp", "nbget", "nbset", "stopset", "nbkernel"}
+  POps = {"putenv", "setstart", "import", "set", "kernel", "checkmp", "launch", "nbget", "nbset", "nbkernel", "user", "thread", "stopset", "pbp"}
+  COps = {"import", "set", "kernel", "checkmp", "nbget", "nbset", "stopset", "nbkernel", "pbp"}
   NW = 2
-  MaxDepth = 5
+  MaxDepth = 6
   BUG_INHERIT = FALSE
   BUG_NBRESET = FALSE
   EmitMode = 0
@@ -30,6 +30,7 @@ PROPERTY StopSticky
 PROPERTY DoneIsFinal
 PROPERTY RaiseStops
 PROPERTY FlagPerProcess
+PROPERTY PbpOneThread
 PROPERTY ChildThreadsOne
 PROPERTY DefaultNoHang
 PROPERTY RegFrame
